@@ -414,7 +414,7 @@ func checkC12(run *Run, res *Result) {
 		// a transient end whose re-open never came (the member is still running, no failure injected)
 		for kk, v := range st {
 			if kk.m == m && v.awaiting && stoppedN[m] == 0 && lastT-v.awaitT > 15_000_000_000 && v.fails == 0 {
-				res.violate("C12", "R1-never-reopened", len(run.Evs), fmt.Sprintf("vb=%d", kk.vb),
+				res.violate("C12", "R1-never-reopened", v.awaitN, fmt.Sprintf("vb=%d", kk.vb),
 					"member %d vb %d: the stream ended with a transient cause at event #%d and was not re-requested within %s", m, kk.vb, v.awaitN, fmtDur(lastT-v.awaitT))
 			}
 		}
